@@ -26,6 +26,13 @@
              "atermD"    guided schedule: TerminateStream succeeds while the upstream is silent, the woken worker is held
                          (gate ds.woken) until the upstream's late answer has arrived and been dropped, then it goes on:
                          the client gets the termination reply (598), unaffected by the dropped answer
+             "rterm"     route with retry_on, upstream answers 503 (retried), then holds the second attempt; TerminateStream
+                         is called through a filter's handler while attempt 2 is in flight; then the upstream answers 200
+             "rtermT"    as rterm, but the upstream stays silent: the request ends by the global timeout (504)
+             In both TerminateStream either takes the request over (its reply is the single reply) or declines
+             WITHOUT side effect (the request then ends by the attempt's answer / the timeout).
+   oneway  : the request is a one-way request (xprotocol one-way frame): no reply is ever sent; a local reply of a
+             filter ends the request silently; everything else (order, once per pass, denied => never forwarded) holds
    verdicts of a receive filter (chosen by TLC per invocation = the verdict script of the filter):
              c continue | s stop | t termination | hs hijack+stop | hc hijack+continue | d direct response+stop |
              ts TerminateStream then stop | ac TerminateStream from another goroutine, then continue |
@@ -45,6 +52,8 @@ RecvKinds == {"B", "R", "H"}
 Chains    == UNION { [1..n -> Kinds] : n \in 0..MaxLen }
 
 VARIABLES chain, env,
+          oneway,    \* one-way request
+          declined,  \* ghost: TerminateStream was called while a later attempt was in flight and declined
           real,      \* [slot, code]: a real security filter sits at this slot and answers with its own code (slot 0 = none)
           ph,        \* what is due: "B" "R" "H" a receive pass | "F" upstream attempt | "W" waiting for the upstream |
                      \* "S" send pass | "P" reply | "C" clean | "E" ended
@@ -66,12 +75,12 @@ VARIABLES chain, env,
           term,      \* a filter returned termination
           resumeAt,  \* ghost: slot that requested the re-entry (0 = none)
           bad        \* ghost: set of violated step properties
-vars == <<chain, env, real, ph, cur, scur, again, direct, pend, hostChosen, log, pass, marks, fwd, replies, reply,
+vars == <<chain, env, real, oneway, declined, ph, cur, scur, again, direct, pend, hostChosen, log, pass, marks, fwd, replies, reply,
           reentries, alt, denied, answer, term, resumeAt, bad>>
 
 Budget == 3   \* retryState: max(3, num_retries)
 RetryRoute(e) == e # "close"
-UpCode(e, n) == IF e = "retry503" /\ n = 1 THEN 503 ELSE 200
+UpCode(e, n) == IF e \in {"retry503", "rterm", "rtermT"} /\ n = 1 THEN 503 ELSE 200
 
 (* codes identify the answering filter *)
 HijackCode(i) == IF real.slot = i THEN real.code ELSE 560 + i
@@ -79,7 +88,7 @@ DirectCode(i) == 440 + i
 TermCode(i)   == 570 + i
 ATermCode(i)  == 580 + i
 AsyncCode     == 598
-ResetCode(e)  == IF e = "atermC" THEN 504 ELSE 502
+ResetCode(e)  == IF e \in {"atermC", "rtermT"} THEN 504 ELSE 502
 
 RecvVerdicts(k) == {"c", "s", "t", "hs", "hc", "d", "ts", "ac", "rm", "rc"}
 (* is a re-entry verdict honoured in phase p? *)
@@ -103,7 +112,8 @@ Settle(ch, p, c) == IF p = "F" THEN [ph |-> "F", cur |-> 1]
                     ELSE Settle(ch, Succ(p), 1)
 
 Init == /\ chain \in Chains /\ env \in Envs /\ real = [slot |-> 0, code |-> 0]
-        /\ env \in {"aterm", "atermA", "atermB", "atermC", "atermD"} => \E i \in DOMAIN chain : chain[i] \in RecvKinds
+        /\ oneway \in BOOLEAN /\ (oneway => env = "ok") /\ declined = FALSE
+        /\ env \in {"aterm", "atermA", "atermB", "atermC", "atermD", "rterm", "rtermT"} => \E i \in DOMAIN chain : chain[i] \in RecvKinds
         /\ LET s == Settle(chain, "B", 1) IN ph = s.ph /\ cur = s.cur
         /\ scur = 1 /\ again = "none" /\ direct = 0 /\ pend = [code |-> 0, local |-> FALSE] /\ hostChosen = FALSE
         /\ log = <<>> /\ pass = 1 /\ marks = {} /\ fwd = 0 /\ replies = 0 /\ reply = 0 /\ reentries = 0 /\ alt = FALSE
@@ -128,7 +138,9 @@ EnterSend(pd, ag, c, hc) ==
 (* ---- the receive side ---- *)
 (* processError after a receive pass of phase p: pending local reply, re-entry, or the next phase *)
 AfterRecv(p, c, ag, dir, hc) ==
-    IF dir # 0 /\ "DirectNotShortCircuit" \notin Defects
+    IF dir # 0 /\ "DirectNotShortCircuit" \notin Defects /\ oneway
+      THEN [ph |-> "C", cur |-> c, again |-> "none", np |-> pass]      \* nobody waits for an answer: the request just ends
+    ELSE IF dir # 0 /\ "DirectNotShortCircuit" \notin Defects
       THEN EnterSend([code |-> dir, local |-> TRUE],
                      IF "AgainSurvivesLocalReply" \in Defects THEN ag ELSE "none", c, hc)
     ELSE IF ag # "none"
@@ -148,7 +160,9 @@ DoCallRecv(i, v) ==
         answers == v \in {"hs", "hc", "d"} \/ (v \in {"ts", "ac"} /\ TermOk)
         code   == CASE v \in {"hs", "hc"} -> HijackCode(i) [] v = "d" -> DirectCode(i)
                     [] v = "ts" -> TermCode(i) [] v = "ac" -> ATermCode(i) [] OTHER -> 0
-        dir    == IF answers THEN code ELSE direct
+        \* the answer is recorded as the pending local reply (what stops the request from being forwarded)
+        sets   == answers /\ ~(oneway /\ "OnewayLocalReplyIgnored" \in Defects /\ v \in {"hs", "hc", "d"})
+        dir    == IF sets THEN code ELSE direct
         stay   == v \in {"rm", "rc"} /\ Honoured(v, p)
         invalid == v \in {"rm", "rc"} /\ ~Honoured(v, p)     \* ends the pass; chain.go returns without acting on it
         goesOn == v \in {"c", "hc", "ac"} /\ NextIn(chain, p, i + 1) # 0
@@ -170,7 +184,7 @@ DoCallRecv(i, v) ==
     /\ answer' = IF answers THEN code ELSE answer
     /\ term' = (term \/ v = "t")
     /\ marks' = {}
-    /\ UNCHANGED <<chain, env, real, scur, fwd, replies, reply>>
+    /\ UNCHANGED <<chain, env, real, oneway, declined, scur, fwd, replies, reply>>
     /\ IF v = "t"
          THEN /\ ph' = "C" /\ cur' = 1 /\ direct' = dir /\ again' = again /\ pend' = pend /\ pass' = pass
          ELSE IF goesOn
@@ -182,22 +196,31 @@ DoCallRecv(i, v) ==
 CallRecv(i, v) == CanCallRecv(i, v) /\ DoCallRecv(i, v)
 
 CanForward == ph = "F"
-DoForward == /\ fwd' = fwd + 1 /\ ph' = "W" /\ hostChosen' = TRUE
-             /\ UNCHANGED <<chain, env, real, cur, scur, again, direct, pend, log, pass, marks, replies, reply, reentries, alt,
+DoForward == /\ fwd' = fwd + 1 /\ ph' = (IF oneway THEN "C" ELSE "W") /\ hostChosen' = TRUE
+             /\ UNCHANGED <<chain, env, real, oneway, declined, cur, scur, again, direct, pend, log, pass, marks, replies, reply, reentries, alt,
                             denied, answer, term, resumeAt, bad>>
 Forward == CanForward /\ DoForward
 
 (* something ends the wait: the upstream's response, its reset, or an asynchronous TerminateStream *)
 Response(pd) == LET nx == EnterSend(pd, again, cur, hostChosen) IN
                 /\ ph' = nx.ph /\ cur' = nx.cur /\ again' = nx.again /\ pass' = nx.np /\ pend' = pd /\ marks' = {} /\ scur' = 1
-                /\ UNCHANGED <<chain, env, real, direct, hostChosen, log, fwd, replies, reply, reentries, alt, denied, answer, term, resumeAt, bad>>
-CanUpResp  == ph = "W" /\ env \in {"ok", "retry503", "lterm", "atermB"}
+                /\ UNCHANGED <<chain, env, real, oneway, declined, direct, hostChosen, log, fwd, replies, reply, reentries, alt, denied, answer, term, resumeAt, bad>>
+(* the defect of a declined TerminateStream that keeps the response flag: nothing can end the wait any more *)
+Stuck      == declined /\ "DeclinedTerminateKeepsResponseFlag" \in Defects
+CanUpResp  == ph = "W" /\ ~Stuck /\ (env \in {"ok", "retry503", "lterm", "atermB", "rterm"} \/ (env = "rtermT" /\ fwd = 1))
 UpResp     == CanUpResp /\ Response([code |-> UpCode(env, fwd), local |-> FALSE])
-CanUpReset == ph = "W" /\ env \in {"close", "atermC"}
+CanUpReset == ph = "W" /\ ~Stuck /\ (env \in {"close", "atermC"} \/ (env = "rtermT" /\ fwd >= 2))
 UpReset    == CanUpReset /\ Response([code |-> ResetCode(env), local |-> TRUE])
 HasRecv    == \E i \in DOMAIN chain : chain[i] \in RecvKinds
-CanATerm   == ph = "W" /\ env \in {"aterm", "atermA", "atermD"} /\ HasRecv
+LaterAttempt == env \in {"rterm", "rtermT"} /\ fwd >= 2 /\ ~declined
+CanATerm   == ph = "W" /\ (env \in {"aterm", "atermA", "atermD"} \/ LaterAttempt) /\ HasRecv
 ATerm      == CanATerm /\ Response([code |-> AsyncCode, local |-> TRUE])
+(* TerminateStream during a later attempt may decline; that must leave the request as it was *)
+CanATermDecline == ph = "W" /\ LaterAttempt /\ HasRecv
+DoATermDecline  == /\ declined' = TRUE
+                   /\ UNCHANGED <<chain, env, real, oneway, ph, cur, scur, again, direct, pend, hostChosen, log, pass, marks, fwd,
+                                  replies, reply, reentries, alt, denied, answer, term, resumeAt, bad>>
+ATermDecline    == CanATermDecline /\ DoATermDecline
 
 CanCallSend(i, v) == ph = "S" /\ i = NextIn(chain, "S", scur) /\ i # 0 /\ v \in SendVerdicts
 DoCallSend(i, v) ==
@@ -206,7 +229,7 @@ DoCallSend(i, v) ==
     /\ log' = Append(log, [slot |-> i, v |-> v, pass |-> pass])
     /\ marks' = marks \cup {i}
     /\ term' = (term \/ v = "t")
-    /\ UNCHANGED <<chain, env, real, direct, pend, hostChosen, fwd, replies, reply, reentries, alt, denied, answer, resumeAt, bad>>
+    /\ UNCHANGED <<chain, env, real, oneway, declined, direct, pend, hostChosen, fwd, replies, reply, reentries, alt, denied, answer, resumeAt, bad>>
     /\ IF v = "t" THEN ph' = "C" /\ scur' = 1 /\ UNCHANGED <<cur, again, pass>>
        ELSE IF goesOn THEN ph' = "S" /\ scur' = i + 1 /\ UNCHANGED <<cur, again, pass>>
        ELSE ph' = nx.ph /\ cur' = nx.cur /\ again' = nx.again /\ scur' = 1 /\ pass' = pass + 1
@@ -214,19 +237,19 @@ CallSend(i, v) == CanCallSend(i, v) /\ DoCallSend(i, v)
 
 CanReply == ph = "P"
 DoReply == /\ replies' = replies + 1 /\ reply' = pend.code /\ ph' = "C"
-           /\ UNCHANGED <<chain, env, real, cur, scur, again, direct, pend, hostChosen, log, pass, marks, fwd, reentries, alt,
+           /\ UNCHANGED <<chain, env, real, oneway, declined, cur, scur, again, direct, pend, hostChosen, log, pass, marks, fwd, reentries, alt,
                           denied, answer, term, resumeAt, bad>>
 Reply == CanReply /\ DoReply
 
 CanClean == ph = "C"
 DoClean == /\ ph' = "E"
-           /\ UNCHANGED <<chain, env, real, cur, scur, again, direct, pend, hostChosen, log, pass, marks, fwd, replies, reply,
+           /\ UNCHANGED <<chain, env, real, oneway, declined, cur, scur, again, direct, pend, hostChosen, log, pass, marks, fwd, replies, reply,
                           reentries, alt, denied, answer, term, resumeAt, bad>>
 Clean == CanClean /\ DoClean
 
 Next == \/ \E i \in 1..MaxLen, v \in RecvVerdicts("R") \cup RecvVerdicts("H") : CallRecv(i, v)
         \/ \E i \in 1..MaxLen, v \in SendVerdicts : CallSend(i, v)
-        \/ Forward \/ UpResp \/ UpReset \/ ATerm \/ Reply \/ Clean
+        \/ Forward \/ UpResp \/ UpReset \/ ATerm \/ ATermDecline \/ Reply \/ Clean
 Spec == Init /\ [][Next]_vars
 
 (* ---- the property ---- *)
@@ -247,10 +270,14 @@ SendPrefix == LET S == { i \in DOMAIN chain : chain[i] = "S" }
 AnswerIsTheReply == (replies = 1 /\ denied /\ answer # 0) => reply = answer
 ReplyWentThroughSendFilters == (ph = "C" /\ replies = 1) => marks = SendPrefix
 TerminatedNeverReplies == (term /\ ph = "E") => replies = 0
-EndsWithReplyOrTermination == ph = "E" => (replies = 1 \/ term)
+EndsWithReplyOrTermination == ph = "E" => (replies = 1 \/ term \/ oneway)
+(* a one-way request is never answered and never passes the send filters *)
+OnewayNeverReplies == oneway => (replies = 0 /\ \A j \in DOMAIN log : chain[log[j].slot] # "S")
+(* a declined TerminateStream has no side effect: what ends the wait is still possible *)
+DeclineHasNoEffect == (ph = "W" /\ declined) => (CanUpResp \/ CanUpReset)
 
 (* ---- case emission: one case per complete behaviour; the call log is the verdict script ---- *)
-Case == [chain |-> chain, env |-> env, script |-> [j \in DOMAIN log |-> [slot |-> log[j].slot, v |-> log[j].v]],
+Case == [chain |-> chain, env |-> env, oneway |-> oneway, script |-> [j \in DOMAIN log |-> [slot |-> log[j].slot, v |-> log[j].v]],
          fwd |-> fwd, reply |-> reply, replies |-> replies]
 Emit == ph = "E" => PrintT(<<"CASE", ToJson(Case)>>)
 ====
